@@ -136,6 +136,22 @@ fn rt_ops<T: Model + BorshSerialize + BorshDeserialize>(op: &str, args: &[&str])
                 Err(e) => format!("dec{}", err_s(&e)),
             })
         }
+        // decode, then re-encode what was decoded: is it the consumed input? (C04 oracle)
+        ("dre", [h]) => {
+            let b = unhex(h).ok()?;
+            let mut s: &[u8] = &b;
+            Some(match T::deserialize(&mut s) {
+                Ok(x) => {
+                    let consumed = &b[..b.len() - s.len()];
+                    match borsh::to_vec(&x) {
+                        Ok(again) if again == consumed => "ok same".to_string(),
+                        Ok(again) => format!("diff {} {}", hex(consumed), hex(&again)),
+                        Err(e) => format!("reenc{}", err_s(&e)),
+                    }
+                }
+                Err(e) => format!("rej {}", err_s(&e)),
+            })
+        }
         _ => None,
     }
 }
